@@ -96,11 +96,18 @@ func c07Gen(r *Rand, tier string, i int) Scenario {
 		}
 		var lens []int
 		nl := PickOf(r, 0, 1, 3, 10, 40, 120)
+		if f == 0 && r.Bool(0.04) {
+			nl = PickOf(r, 1005, 1100) // running numbers with four digits
+		}
 		for k := 0; k < nl; k++ {
 			switch r.Intn(12) {
 			case 0:
 				lens = append(lens, 0)
 			case 1:
+				if nl > 1000 {
+					lens = append(lens, 3)
+					break
+				}
 				lens = append(lens, PickOf(r, 5000, 33000, 60000))
 			default:
 				lens = append(lens, r.Intn(80))
